@@ -189,6 +189,10 @@ impl Exec {
         }
     }
 
+    pub fn should_poll(&self) -> bool {
+        self.needs_poll || self.last_item || self.woken_latest()
+    }
+
     fn woken_latest(&self) -> bool {
         match &self.cur {
             None => false,
@@ -482,6 +486,12 @@ pub fn run_vector(v: &Vector) -> String {
             }
             "run" => ex.run(),
             "repoll" => ex.repoll(),
+            "threads" => {
+                let t = arr.get(1).and_then(|x| x.as_u64()).unwrap_or(2) as usize;
+                let f = arr.get(2).and_then(|x| x.as_u64()).unwrap_or(20) as usize;
+                let sd = arr.get(3).and_then(|x| x.as_u64()).unwrap_or(1);
+                crate::threads::run(&mut ex, t.clamp(1, 8), f.min(500), sd);
+            }
             "settle" => ex.settle(false),
             "settle_all" => ex.settle(true),
             "drop" => ex.drop_cut(),
